@@ -18,7 +18,7 @@ import itertools, random as _random
 # stratified: configured maximum x waiting mode x the first message's expiry interval are walked through systematically
 # (90 combinations, fixed shuffled order), everything else is random — a quick run of 96 cases covers every combination,
 # in particular "no configured maximum, interval 2 s, 3.6 s offline" (seed C12-3), which pure sampling hit once in 70 cases
-_GRID = list(itertools.product([0, 3, 7200], ["online", "idle", "offline", "offline-long", "unacked", "offline-long"],
+_GRID = list(itertools.product([0, 3, 7200], ["online", "idle", "offline", "offline-long", "unacked", "offline-long", "behind-unacked"],
                                [2, 5, 100, 0, 4294967295]))
 _random.Random(12).shuffle(_GRID)
 _k = [0]
@@ -52,12 +52,22 @@ def gen(rng):
         for e in exps: pub(e)
         ops.append("sleep 1500" if mode == "offline" else "sleep 3600")
         ops.append(f"conn s2 cs v={vs} cs=0" + (" se=300" if vs == 5 else ""))
+    elif mode == "behind-unacked":
+        # a message is delivered and left unacknowledged, the connection is lost, THEN the messages under test are queued
+        # behind it and wait 3.6 s: on resume they come right after the retransmission (seed C12-4)
+        mode = "offline"
+        pub(0)
+        mode = "behind-unacked"
+        ops.append("close s1")
+        for e in exps: pub(e)
+        ops.append("sleep 3600")
+        ops.append(f"conn s2 cs v={vs} cs=0" + (" se=300" if vs == 5 else ""))
     else:
         for e in exps: pub(e)          # delivered, not acknowledged
         ops.append("close s1")
         ops.append("sleep 1500")
         ops.append(f"conn s2 cs v={vs} cs=0" + (" se=300" if vs == 5 else ""))
-    last = "s2" if mode in ("offline", "offline-long", "unacked") else "s1"
+    last = "s2" if mode in ("offline", "offline-long", "unacked", "behind-unacked") else "s1"
     ops += [f"ack {last} puback all", f"ack {last} pubrec all", f"ack {last} pubcomp all", f"ping {last}"]
     return ops
 
@@ -122,7 +132,7 @@ def nontrivial(ops, out):
     return any(o.startswith("sleep") for o in ops) and any(" e=" in o for o in ops)
 
 def streams(tier):
-    n = 96 if tier == "quick" else 1800
+    n = 112 if tier == "quick" else 2100
     return [(core.Stream("broker-expiry", "broker", gen, predicate, nontrivial, canon=wire.canon, keep_prefix=1, hint=wire.shared_hints, timeout=600), n)]
 
 def run(r):
